@@ -22,6 +22,7 @@ T = tp.TypeVar("T")
 __all__ = (
     "AbstractMarshaller",
     "ContextT",
+    "NoneTypeMarshaller",
     "BytesMarshaller",
     "StringMarshaller",
     "IntegerMarshaller",
@@ -109,6 +110,23 @@ class NoOpMarshaller(AbstractMarshaller[T], tp.Generic[T]):
 
 
 BytesMarshaller = NoOpMarshaller[bytes]
+
+
+class NoneTypeMarshaller(AbstractMarshaller[None]):
+    """A marshaller for null values: only `None` is a member of `NoneType`."""
+
+    def __call__(self, val: None) -> None:
+        """Marshal a null value.
+
+        Args:
+            val: The value to marshal.
+
+        Raises:
+            ValueError: If `val` is not `None`.
+        """
+        if val is not None:
+            raise ValueError(f"{val!r} is not of {type(None)!r}")
+        return None
 
 
 class CastMarshaller(AbstractMarshaller[T], tp.Generic[T]):
